@@ -195,7 +195,7 @@ func sortedDistinctDesc(is []uint64) bool {
 func (s *Sess) CFree(cid int, ps PriceSpec, indices []uint64) (Result, rhp4.RPCFreeSectorsResult) {
 	hk, _, _ := s.honestKey(cid)
 	prices, pw := s.Prices(ps)
-	r, err := rhp4.RPCFreeSectors(bg, s.R.T, Key(hk), s.R.CM.TipState(), prices, s.ContractRev(cid), indices)
+	r, err := rhp4.RPCFreeSectors(bg, s.client(), Key(hk), s.R.CM.TipState(), prices, s.ContractRev(cid), indices)
 	s.R.T.WaitIdle()
 	res := Result{Cls: ErrClass(err)}
 	res.Op = fmt.Sprintf("cfree %d %s %s", cid, pw, U64s(indices))
@@ -279,7 +279,7 @@ func (s *Sess) Append(a AppendArgs) Result {
 func (s *Sess) CAppend(cid int, ps PriceSpec, sectors []int) (Result, rhp4.RPCAppendSectorsResult) {
 	hk, _, _ := s.honestKey(cid)
 	prices, pw := s.Prices(ps)
-	r, err := rhp4.RPCAppendSectors(bg, s.R.T, Key(hk), s.R.CM.TipState(), prices, s.ContractRev(cid), RootHashes(sectors))
+	r, err := rhp4.RPCAppendSectors(bg, s.client(), Key(hk), s.R.CM.TipState(), prices, s.ContractRev(cid), RootHashes(sectors))
 	s.R.T.WaitIdle()
 	res := Result{Cls: ErrClass(err)}
 	if err == nil {
@@ -348,7 +348,7 @@ func (s *Sess) Roots(a RootsArgs) Result {
 func (s *Sess) CRoots(cid int, ps PriceSpec, off, length uint64) (Result, bool) {
 	hk, _, _ := s.honestKey(cid)
 	prices, pw := s.Prices(ps)
-	r, err := rhp4.RPCSectorRoots(bg, s.R.T, s.R.CM.TipState(), prices, Key(hk), s.ContractRev(cid), off, length)
+	r, err := rhp4.RPCSectorRoots(bg, s.client(), s.R.CM.TipState(), prices, Key(hk), s.ContractRev(cid), off, length)
 	s.R.T.WaitIdle()
 	res := Result{Cls: ErrClass(err), Roots: r.Roots}
 	if err == nil {
@@ -776,4 +776,33 @@ func (s *Sess) FormLine(cid int) (string, string) {
 // CaseHeader is the Model string of a host case.
 func (s *Sess) CaseHeader() string {
 	return fmt.Sprintf("rhp host %d %d %d", HostKeyID, ModelNow, s.R.CM.Tip().Height)
+}
+
+// client is the transport the real client is given: the rig's, or a recording wrapper around it.
+func (s *Sess) client() rhp4.TransportClient {
+	if s.Client != nil {
+		return s.Client
+	}
+	return s.R.T
+}
+
+// Replay writes a recorded renter-side byte stream (everything the renter sent on one stream of an
+// earlier RPC, all rounds) on a fresh stream, lets the host answer whatever it answers and waits
+// until its handler has returned.  It reports how many bytes the host sent back.
+func (s *Sess) Replay(sent []byte) int {
+	st := s.R.Open()
+	st.Write(sent)
+	st.Conn.(halfCloser).CloseWrite()
+	n := 0
+	buf := make([]byte, 4096)
+	for {
+		k, err := st.Read(buf)
+		n += k
+		if err != nil {
+			break
+		}
+	}
+	st.End()
+	s.R.Rec.Take()
+	return n
 }
